@@ -125,6 +125,8 @@ def harnesses(tier, seed):
                       functions=FUNCS, bounds="IEEE binary64, one coordinate, |bounds| <= 1000, x in [0,1]",
                       assumptions=["finite inputs, xl < xu"], expect=['remove_scaling-of-unit-box-point-exactly-in-box'], nproc=1, max_replays=2))
     hs += step.step_harnesses(tier, seed, 'C01')
+    # every other evaluation site of the controller, as stand-alone actions (soft_restart evaluates through geometry_step)
+    hs += [h for h in step.action_harnesses(tier, seed, 'C01') if tier != 'quick' or not h.name.startswith('action[soft_restart')]
     hs += outer.outer_harnesses(tier, seed, 'C01')
     hs += runstart.start_harnesses(tier, seed, 'C01')
     from .c03 import shared_c02_harnesses
